@@ -40,6 +40,13 @@ func readVolume(volumeBytes []byte) (volume, error) {
 	// TODO: Check count of files saved in volume set, and other
 	// offsets and bytes.
 
+	// Each entry takes up at least sizeOfFileEntryHeader() bytes,
+	// so bound the entry count by what the volume can hold before
+	// allocating anything.
+	if header.FileCount > uint64(buf.Len())/sizeOfFileEntryHeader() {
+		return volume{}, errors.New("file count too big")
+	}
+
 	entries := make([]fileEntry, header.FileCount)
 	var setHashInput []byte
 	for i := uint64(0); i < header.FileCount; i++ {
